@@ -1,7 +1,134 @@
-/- Driver glue for C18: case lines `c18.<sub> <args…> | <impl…>` (stub until the property is built) -/
-import FileD.Prelude.Tok
-namespace FileD.DrvC18
+/-
+  Driver glue for C18. Case lines (byte strings hex, trees in JTree prefix form):
 
-def handle (_cmd : String) (_args _impl : List String) : Option (String × String) := none
+    c18.parse  <sel>                      | <n> <seg>…                      cfg.ParseFieldSelector
+    c18.rt     <n> <field>…               | <sel> <n> <seg>…                Parse(BuildFieldSelector(fields))
+    c18.remove <n> <sel>… <tree>          | cfgerr
+    c18.keep   <n> <sel>… <tree>          | ok <n> <perm>… <np> (<len> <seg>…)… <tree>
+                                          | panic:<kind>
+  `perm` is the permutation `sort.Slice` applied inside ParseNestedFields (oracle parameter: the harness
+  re-runs sort.Slice with the same comparator on the same path lengths); the paths after it are the real
+  `cfg.ParseNestedFields` result, the tree is the event after `Do` (as encoded by insane-json).
+
+  The M column is the model result in the same form. When the verdict is not `ok` a last token
+  `#<kind>` (order | arridx | other) is appended to M: the known-finding signatures in checks/p_C18.py
+  read the kind from there (the check passes the M column, not the P column, to a signature).
+-/
+import FileD.Prelude.Tok
+import FileD.Model.Fields
+import FileD.Spec.C18
+namespace FileD.DrvC18
+open FileD Tok FileD.Fields FileD.SpecC18
+
+def encSegs (p : List Bytes) : List String := toString p.length :: p.map Hex.enc
+
+def encPaths (ps : List Path) : List String := toString ps.length :: ps.flatMap encSegs
+
+def parseSegs (ts : List String) : Option (List Bytes × List String) := listOf bytes? ts
+
+def isPerm (perm : List Nat) (n : Nat) : Bool :=
+  perm.length == n && (List.range n).all (fun i => perm.contains i)
+
+def applyPerm (perm : List Nat) (raw : List Path) : Option (List Path) :=
+  perm.mapM (fun i => raw[i]?)
+
+/-- identity-ish default when the implementation result carries no permutation: stable sort -/
+def defaultSorted (raw : List Path) : List Path := sortLen raw
+
+structure ImplRes where
+  perm : List Nat
+  tree : JTree
+
+/-- `ok <n> <perm>… <np> (<len> <seg>…)… <tree>` -/
+def parseImpl (impl : List String) : Option ImplRes :=
+  match impl with
+  | "ok" :: r => do
+    let (perm, r1) ← listOf nat? r
+    match r1 with
+    | np :: r2 =>
+      let n ← nat? np
+      let rec skipPaths : Nat → List String → Option (List String)
+        | 0, ts => some ts
+        | k+1, ts => do
+          let (_, r') ← parseSegs ts
+          skipPaths k r'
+      let r3 ← skipPaths n r2
+      let (t, r4) ← JTree.parse? r3
+      if r4 ≠ [] then none
+      pure ⟨perm, t⟩
+    | [] => none
+  | _ => none
+
+def withKind (m : String) (verdict : String) : String × String :=
+  if verdict = "ok" then (m, "ok") else (m ++ " #" ++ verdict, "fail")
+
+def handleSel (isKeep : Bool) (args impl : List String) : Option (String × String) := do
+  let (sels, r) ← listOf bytes? args
+  let (t, r') ← JTree.parse? r
+  if r' ≠ [] then none
+  if !uniq t then none                -- the property (and the model of keep_fields) is about unique keys
+  match parsePaths sels with
+  | .error _ =>
+    -- Start would log.Fatal; nothing runs. Property: nothing to check.
+    pure ("cfgerr", if impl = ["cfgerr"] then "ok" else "fail")
+  | .ok raw =>
+    let ir := parseImpl impl
+    let sorted : Option (List Path × List Nat) :=
+      match ir with
+      | some x =>
+        if isPerm x.perm raw.length then
+          match applyPerm x.perm raw with
+          | some s => if sortedLen s then some (s, x.perm) else none
+          | none => none
+        else none
+      | none => some (defaultSorted raw, [])
+    match sorted with
+    | none => pure ("bad-sort-oracle", "fail")
+    | some (s, perm) =>
+      let norm := dedupe s
+      let head := ["ok"] ++ (toString perm.length :: perm.map toString) ++ encPaths norm
+      if isKeep then
+        match keepFields norm t with
+        | .error e => pure (withKind (panicTok e) (if ir.isSome then "other" else "other"))
+        | .ok mt =>
+          let m := unwords (head ++ mt.toToks)
+          match ir with
+          | some x => pure (withKind m (verdictKeep raw t x.tree))
+          | none => pure (withKind m "other")
+      else
+        let mt := removeFields norm t
+        let m := unwords (head ++ mt.toToks)
+        match ir with
+        | some x => pure (withKind m (verdictRemove raw norm t x.tree))
+        | none => pure (withKind m "other")
+
+def handle (cmd : String) (args impl : List String) : Option (String × String) :=
+  match cmd with
+  | "c18.parse" =>
+    match args with
+    | [s] => do
+      let sel ← bytes? s
+      -- correspondence only: the selector grammar has no independent spec
+      pure (unwords (encSegs (parseFieldSelector sel)), "ok")
+    | _ => none
+  | "c18.rt" => do
+    let (fields, r) ← listOf bytes? args
+    if r ≠ [] then none
+    let sel := buildFieldSelector fields
+    let m := unwords (Hex.enc sel :: encSegs (parseFieldSelector sel))
+    -- property: a selector built from field names parses back to exactly these names
+    let p :=
+      if validNames fields then
+        match impl with
+        | _ :: segs =>
+          match parseSegs segs with
+          | some (got, []) => if got == fields then "ok" else "fail"
+          | _ => "fail"
+        | [] => "fail"
+      else "ok"
+    pure (m, p)
+  | "c18.remove" => handleSel false args impl
+  | "c18.keep" => handleSel true args impl
+  | _ => none
 
 end FileD.DrvC18
